@@ -7,6 +7,7 @@ package aa
 import (
 	"fmt"
 	"strconv"
+	"strings"
 )
 
 const (
@@ -87,7 +88,36 @@ func (r *Rlimit) Compare(other Rule) int {
 	if res := compare(r.Op, o.Op); res != 0 {
 		return res
 	}
-	return compare(r.Value, o.Value)
+	// By the number a value starts with, then by the rest: AppArmor keeps the
+	// last rule of a resource, which has to be the larger one
+	a, restA := splitNumber(r.Value)
+	b, restB := splitNumber(o.Value)
+	if (restA == r.Value) != (restB == o.Value) {
+		return boolToInt(restA == r.Value) - boolToInt(restB == o.Value)
+	}
+	if a != b {
+		if a < b {
+			return -1
+		}
+		return 1
+	}
+	return compare(restA, restB)
+}
+
+// splitNumber returns the number a value starts with and what follows it.
+func splitNumber(value string) (int64, string) {
+	end := 0
+	if strings.HasPrefix(value, "-") {
+		end = 1 // A nice value
+	}
+	for end < len(value) && value[end] >= '0' && value[end] <= '9' {
+		end++
+	}
+	n, err := strconv.ParseInt(value[:end], 10, 64)
+	if err != nil {
+		return 0, value
+	}
+	return n, value[end:]
 }
 
 func (r *Rlimit) Merge(other Rule) bool {
